@@ -295,11 +295,11 @@ def rfindChar (c : Char) (s : Str) (pos : Option Nat) : Option Nat :=
 
 /-- the `..` loop.  `pos - 1U`, `pos - pos1` and `pos - pos1 + 4` are `size_t` expressions: at `pos == 0`
     the search runs over the whole string, `pos1 > pos`, and the counts wrap. -/
-def dotdotLoop : Nat → Str → Nat → Str
-  | 0, path, _ => path
+def dotdotLoop : Nat → Str → Nat → Option Str
+  | 0, _, _ => none
   | fuel + 1, path, pos0 =>
     match findSub "/..".toList path pos0 with
-    | none => path
+    | none => some path
     | some pos =>
       if pos + 3 < path.length && cat path (pos + 3) != '/' then dotdotLoop fuel path (pos + 1)
       else
@@ -316,19 +316,24 @@ def dotdotLoop : Nat → Str → Nat → Str
           let path' := if erased.isEmpty then ['.'] else erased
           dotdotLoop fuel path' (if pos1 == 0 then 1 else pos1 - 1)
 
+/-- iteration budget of the `..` loop: every iteration shortens the string or moves `pos` forward; running out of it
+    is reported (`none`) and shows up in the correspondence, it is never silently turned into an answer -/
 def dotdotFuel (path : Str) : Nat := (path.length + 2) * (path.length + 2)
 
-/-- `simplecpp::simplifyPath` = `Path::simplifyPath` -/
-def simplifyPath (path : Str) : Str :=
-  if path.isEmpty then path
+/-- `simplecpp::simplifyPath` = `Path::simplifyPath`; `none` = the iteration budget of the model was exceeded -/
+def simplifyPathO (path : Str) : Option Str :=
+  if path.isEmpty then some path
   else
     let p := fromNativeSeparators path
     let unc := "//".toList.isPrefixOf p
     let p := dedupSlash p
     let p := removeDotSlash none p
     let p := if "/.".toList.isSuffixOf p then p.dropLast else p
-    let p := dotdotLoop (dotdotFuel p) p 1
-    if unc then '/' :: p else p
+    match dotdotLoop (dotdotFuel p) p 1 with
+    | none => none
+    | some p => some (if unc then '/' :: p else p)
+
+def simplifyPath (path : Str) : Str := (simplifyPathO path).getD path
 
 /-- did the run of the `..` loop evaluate the wrap-around branch (`pos == 0` with a hit at 0)? -/
 def dotdotWraps : Nat → Str → Nat → Bool
